@@ -12,8 +12,9 @@ MT_FEATURES = {
     "C02": {"retries": "always"}, "C05": {"queues": "always", "max_tasks": 5}, "C31": {"sequential": "always"},
     "C04": {"max_fcp": 5, "future": "always"}, "C07": {"future": "always"},
 }
-MT_PROPS = {"C01", "C02", "C03", "C04", "C05", "C06", "C07", "C09", "C11", "C26", "C31", "C43"}
-MT_COMMANDS = {"C06", "C07", "C43", "C03", "C26"}      # every other execution with hold / release / stop-point commands
+MT_PROPS = {"C01", "C02", "C03", "C04", "C05", "C06", "C07", "C09", "C11", "C26", "C31", "C43", "C28", "C29"}
+MT_COMMANDS = {"C06", "C07", "C43", "C03", "C26", "C05", "C28", "C29"}      # every other execution with hold / release / stop-point commands
+MT_MANUAL = {"C05", "C26", "C28", "C29"}      # ... and cylc trigger / cylc set --out on pooled tasks
 N_WF = {"quick": 16, "thorough": 160}
 RUNS_PER_WF = {"quick": 4, "thorough": 6}
 
@@ -37,7 +38,8 @@ def _one_wf_try(job):
             home = tempfile.mkdtemp(prefix=f"mt{job['seed']}-", dir=job["scratch"])
             try:
                 # every other execution with arbitrary job outcomes (incomplete tasks, stalls)
-                plan = modeltrace.command_plan(w, rng) if job.get("commands") and k % 2 == 1 else None
+                plan = (modeltrace.command_plan(w, rng, manual=bool(job.get("manual")))
+                        if job.get("commands") and k % 2 == 1 else None)
                 r = modeltrace.one_mt_run(w, rng.randrange(1 << 30), rng.randrange(1 << 30), home,
                                           mode="complete_novanish" if k % 4 < 2 else "any_novanish", plan=plan)
             finally:
@@ -81,7 +83,7 @@ def run_mt(ctx):
     feats = dict(BASE_FEATURES)
     feats.update(MT_FEATURES.get(ctx.prop, {}))
     jobs = [{"seed": ctx.seed * 1_000_003 + 500_000 + k, "scratch": ctx.scratch, "features": feats,
-             "nruns": RUNS_PER_WF[ctx.tier], "commands": ctx.prop in MT_COMMANDS} for k in range(nwf)]
+             "nruns": RUNS_PER_WF[ctx.tier], "commands": ctx.prop in MT_COMMANDS, "manual": ctx.prop in MT_MANUAL} for k in range(nwf)]
     wfs = common.parallel_map(_one_wf, jobs, procs=16)
     errs = [w for w in wfs if "error" in w]
     if errs:
@@ -109,7 +111,7 @@ def run_mt(ctx):
                     ctx.violation("MT_" + what,
                                   f"model invariant {what} is false in the state the real scheduler reached at logged step "
                                   f"{idx} ({r['evs'][idx - 1]}) of model-trace run {k}, workflow {json.dumps(wf['desc'])}",
-                                  {"mt": {"seed": wf["seed"], "features": feats, "nruns": len(wf["runs"]), "run": k, "commands": ctx.prop in MT_COMMANDS,
+                                  {"mt": {"seed": wf["seed"], "features": feats, "nruns": len(wf["runs"]), "run": k, "commands": ctx.prop in MT_COMMANDS, "manual": ctx.prop in MT_MANUAL,
                                           "step": idx, "invariant": what}, "flow_cylc": wf["flow"]})
     cov = ctx.coverage
     cov["states"] = cov.get("states", 0) + states
@@ -128,7 +130,7 @@ def run_mt(ctx):
 def replay_mt(ctx, rep):
     """Re-run one workflow's model traces."""
     job = {"seed": rep["seed"], "scratch": ctx.scratch, "features": rep["features"], "nruns": rep["nruns"],
-           "commands": rep.get("commands", False)}
+           "commands": rep.get("commands", False), "manual": rep.get("manual", False)}
     wf = _one_wf(job)
     if "error" in wf:
         raise common.MachineryError(wf["error"])
